@@ -2,7 +2,7 @@
 import replica, vlib
 
 ARCH = dict(MaxBlocks=2, MaxChecks=3, MaxTx=2, Deviations=set())
-ARCH_DEVS = ["proposalsUnboundInBegin", "feeOptUnboundInBegin", "checkUpdatesMemory"]
+ARCH_DEVS = ["proposalsUnboundInBegin", "feeOptUnboundInBegin", "checkUpdatesMemory", "olvmValidateThroughCache"]
 
 
 def run(ctx, replay):
